@@ -529,6 +529,9 @@ func checkC08(p *Prog, r *Report) {
 	checkForeignKeysParsedByOwner(p, r, "C08")
 
 	// D10 hand-written JSON decoders of the exported types (jsondecode.go)
+	checkNoLanguageDowngrade(p, r, "C08")
+	checkGenesisJSONForms(p, r, "C08", []string{"x/aol", "x/did", "x/pnft", "x/burn"})
+	checkModuleExtensionInterfaces(p, r, "C08", []string{"x/aol", "x/did", "x/pnft", "x/burn"})
 	checkJSONDecoders(p, r, "C08")
 
 	// ---------------- D5 order independence ----------------
